@@ -38,6 +38,11 @@ pub fn preloaded(idx: Idx) -> &'static Preloaded {
                 emb: false,
                 ..Idx::ALL
             },
+            // one index missing each: index CREATION (with backfill) as a cancellation target in C06
+            Idx { tags: false, ..Idx::ALL },
+            Idx { body: false, ..Idx::ALL },
+            Idx { emb: false, ..Idx::ALL },
+            Idx { name: false, ..Idx::ALL },
         ] {
             install_env();
             let (cs, _ctl) = CtlStore::new();
